@@ -106,10 +106,20 @@ export function genSplitProject(rng, p) {
       const cands = decls.filter((d) => place.get(d[1]) === F.name && d[1] !== X).map((d) => local.get(d[1])).filter((n) => n !== ln && !F.exported.has(n));
       if (cands.length) { const en = rng.pick(cands); F.exported.add(en); F.stmts.push({ kind: "export-local", name: ln, renamed: en }); return { file: F.name, kind: "named", name: en }; }
     }
+    // exported under the name of a TYPE PARAMETER of some generic declaration (`export { Local as T }`): reached only through
+    // `import("…").T` / `NS.T`, where the name after the dot is an export of that file whatever parameters are in scope
+    const params = [...new Set(decls.flatMap((x) => x[2]))].filter((n) => !F.exported.has(n) && !F.locals.has(n));
+    if (params.length && rng.chance(1, 3)) {
+      const en = rng.pick(params);
+      F.exported.add(en);
+      F.stmts.push({ kind: "export-local", name: ln, renamed: en });
+      return { file: F.name, kind: "named", name: en };
+    }
     const en = F.freshExport(ln + "_r");
     F.stmts.push({ kind: "export-local", name: ln, renamed: en });
     return { file: F.name, kind: "named", name: en };
   }
+  const allParams = new Set(decls.flatMap((x) => x[2]));
   function viaHub(ex) {
     const H = hub;
     if (ex.kind === "default") {
@@ -161,7 +171,8 @@ export function genSplitProject(rng, p) {
       else if (r === 1) { const ln = G.fresh("W"); G.stmts.unshift({ kind: "import-star", local: ln, target: ex.file, typeOnly: typeOnly === 1 }); name = `${ln}.${ex.name}.${ex.inner}`; }
       else { const ln = G.fresh(ex.name); G.stmts.unshift({ kind: "import-named", local: ln, orig: ex.name, target: ex.file, typeOnly }); name = `${ln}.${ex.inner}`; }
     } else {
-      const r = rng.below(6);
+      // (an export named like a type parameter is written qualified: a bare name would be the parameter)
+      const r = allParams.has(ex.name) ? (inExtends ? 1 : rng.below(2)) : rng.below(6);
       if (r === 0 && !inExtends) name = `import(${ex.file}).${ex.name}`;
       else if (r === 1) { const ln = G.fresh("NS"); G.stmts.unshift({ kind: "import-star", local: ln, target: ex.file, typeOnly: typeOnly === 1 }); name = `${ln}.${ex.name}`; }
       else if (r < 4 && !G.locals.has(ex.name)) { G.locals.add(ex.name); G.stmts.unshift({ kind: "import-named", local: ex.name, orig: ex.name, target: ex.file, typeOnly }); name = ex.name; }
@@ -422,6 +433,18 @@ export function genWatch(rng, p) {
         [A("var"), "type Tree = { label: string; children: Tree[] };\nexport type Tail = Exclude<Tree | undefined, undefined>;\n", [A("src")]], [A("var"), "export type Tail = {;\n", A("broken")]]);
     }
   }
+  // custom formats: whether `StringFormat<"password">` compiles depends on the SETTINGS a rebuild is asked under — the output is
+  // a function of the file contents and the settings of THIS rebuild, not of an earlier one (`gen_v…`: outside the Lean model)
+  let formats = false;
+  if (rng.chance(1, 5)) {
+    const entry = files.find((f) => f[1] === "entry.ts");
+    if (entry) {
+      formats = true;
+      for (const v of entry.slice(2)) if (typeof v[1] === "string" && v[1] !== "@@ABSENT@@") v[1] = 'import { Pw } from "./gen_vfmt";\n' + v[1].replace(/ \}>\(\);\n$/, ", EF: Pw }>();\n");
+      files.push([A("file"), "gen_vfmt.ts", [A("var"), 'export type Pw = StringFormat<"password">;\n', [A("src")]], [A("var"), 'export type Pw = { p: StringFormat<"password">; n: NumberFormat<"age"> };\n', [A("src")]],
+        [A("var"), "export type Pw = string;\n", [A("src")]]]);
+    }
+  }
   const ops = [];
   const n = 3 + rng.below(10);
   const pickVar = (f) => (f === late || f === shadow ? 1 + rng.below(f.length - 3) : rng.below(f.length - 2));
@@ -439,6 +462,14 @@ export function genWatch(rng, p) {
   ops.push([A("r")]);
   // a common end game: repair everything, rebuild
   if (rng.chance(1, 2)) { for (const f of files) if (rng.chance(2, 3)) ops.push([A("u"), f[1], A(String(f === late || f === shadow ? 1 + rng.below(2) : rng.below(2)))]); ops.push([A("r")]); }
+  if (formats) {
+    // every rebuild names its settings; often two rebuilds in a row differ in nothing but the settings
+    for (let i = ops.length - 1; i >= 0; i--) if (head(ops[i]) === "r") {
+      const k = rng.below(3);
+      ops[i] = [A("rs"), A(String(k))];
+      if (rng.chance(1, 2)) ops.splice(i + 1, 0, [A("rs"), A(String((k + 1 + rng.below(2)) % 3))]);
+    }
+  }
   return [[A("files"), ...files], [A("ops"), ...ops]];
 }
 
